@@ -190,6 +190,21 @@ class Gen:
                     C(i, "CMD POWERON\0")
                     if clk is None and (i < 2 or True):
                         clk = 0
+            if profile == "radio":
+                # simulated radio parameters on every transceiver, small enough to stay inside the protocol ranges
+                for i in range(nt):
+                    if r.random() < 0.7:
+                        C(i, "CMD SETFORMAT %d\0" % r.choice([1, 1, 0])); ver[i] = 1 if ops[-1].endswith("203100") else 0
+                    if r.random() < 0.6:
+                        C(i, "CMD FAKE_CI %d %d\0" % (r.choice([90, 0, -100, 500, 1270]), r.choice([0, 1, 2, 5, 10])))
+                    if r.random() < 0.6:
+                        C(i, "CMD FAKE_RSSI %d %d\0" % (r.choice([-60, -80, -100, -50, -118]), r.choice([0, 1, 3, 10, 20, 25, -1])))
+                    if r.random() < 0.6:
+                        C(i, "CMD FAKE_TOA %d %d\0" % (r.choice([0, 40, -40, 2000, 32000]), r.choice([0, 1, 10, 256, 512])))
+                    if r.random() < 0.4:
+                        C(i, "CMD SETTA %d\0" % r.choice([0, 1, 7, 63, -3]))
+                    if r.random() < 0.3:
+                        C(i, "CMD SETPOWER %d\0" % r.choice([0, 2, 10, 20]))
             if profile == "wrap" or r.random() < 0.15:
                 clk = r.choice([H - 1, H - 2, H - 3, H - 5])
                 ops.append("J %d" % clk)
@@ -204,6 +219,7 @@ class Gen:
             "power": (0.55, 0.15, 0.28, 0.02),
             "fuzz": (0.45, 0.35, 0.18, 0.02),
             "drop": (0.12, 0.45, 0.42, 0.01),
+            "radio": (0.10, 0.45, 0.44, 0.01),
         }[profile]
         for _ in range(n_ops):
             k = r.random()
@@ -222,6 +238,20 @@ class Gen:
                         C(i, "CMD RFMUTE %d\0" % r.choice([0, 1, 1, 2, -1]))
                     else:
                         C(i, "CMD SETFORMAT %d\0" % r.choice([0, 1]))
+                elif profile == "radio":
+                    v = r.choice(["FAKE_CI", "FAKE_RSSI", "FAKE_TOA", "SETTA", "SETPOWER", "SETFORMAT"])
+                    if v == "FAKE_CI":
+                        C(i, "CMD FAKE_CI %d %d\0" % (r.choice([90, -20, 100, 1275]), r.choice([0, 1, 2, 5])))
+                    elif v == "FAKE_RSSI":
+                        C(i, "CMD FAKE_RSSI %d %d\0" % (r.choice([-60, -75, -85, -49, -119]), r.choice([0, 2, 20, 25, -1])))
+                    elif v == "FAKE_TOA":
+                        C(i, "CMD FAKE_TOA %d %d\0" % (r.choice([0, 40, 32700, -32700]), r.choice([0, 10, 512])))
+                    elif v == "SETTA":
+                        C(i, "CMD SETTA %d\0" % r.choice([0, 1, 7, 63]))
+                    elif v == "SETPOWER":
+                        C(i, "CMD SETPOWER %d\0" % r.choice([0, 5, 13]))
+                    else:
+                        C(i, "CMD SETFORMAT %d\0" % r.choice([0, 1]))
                 elif profile == "traffic" or profile == "wrap":
                     v = r.choice(["FAKE_DROP", "FAKE_DROP", "RFMUTE", "SETTA", "FAKE_TOA", "FAKE_RSSI", "FAKE_CI",
                                   "SETPOWER", "SETFORMAT", "POWEROFF", "POWERON", None])
@@ -235,7 +265,7 @@ class Gen:
             elif k < weights[0] + weights[1]:
                 base = clk if clk is not None else 0
                 d = r.choice([0, 0, 1, 1, 2, 2, 3, 5, -1, -2, 10, 1000, H // 2 - 1, H // 2, H // 2 + 1, -H // 2])
-                if profile == "drop":
+                if profile in ("drop", "radio"):
                     d = r.choice([0, 1, 1, 1, 2, 2, 3])
                 fn = (base + d) % H if (r.random() < 0.97 or self.clean) else r.choice([H, H + 1, 2 ** 32 - 1])
                 v = ver[i] if r.random() < 0.9 else 1 - ver[i]
